@@ -9,6 +9,7 @@ from .. import core
 from ..core import q, lst, natl, boolc, pair
 from .. import pb, elections
 
+NAMING = True
 ID = "C08"
 ORACLE = "Oracle.C08"
 PROPS = "Props/C08.v"
